@@ -5,7 +5,7 @@ mod expand_flow;
 mod expand_position;
 mod open_flow;
 mod open_position;
-mod snapshot;
+pub(crate) mod snapshot;
 mod withdraw;
 
 pub use claim::claim;
